@@ -82,32 +82,18 @@ def main():
     shutil.copy(f"{out}/{demo}", sdir)
     if custom_cmd:
         open(f"{sdir}/demo_cmd.txt", "w").write(f"demo placed at {custom_dst}; run: {custom_cmd}\n")
-    # run the checks against it
-    assert sh("git -C /repo status --porcelain -- src")[1].strip() == "", "repo not clean"
-    rc, o = sh(f"git -C /repo apply {sdir}/patch.diff")
-    assert rc == 0, o
+    # run the checks against it on a scratch instance of the framework + scratch worktree (tools/eval_patch.py),
+    # so that neither /repo nor /verif's build caches are occupied
+    inst = opt("--instance", "2")
+    cmd = f"python3 /verif/tools/eval_patch.py {sdir}/patch.diff {name} --instance {inst}" + (f" --checks {','.join(checks)}" if checks else "")
+    r = subprocess.run(cmd, shell=True, stdout=subprocess.PIPE, text=True, timeout=4 * 3600)
+    res = json.loads(r.stdout)
     det = {}
-    try:
-        man = json.load(open("/verif/MANIFEST.json"))
-        ids = checks or [c["property_id"] for c in man["checks"]]
-        for pid in ids:
-            t0 = time.time()
-            rc, o = sh(f"bin/check {pid} quick", cwd="/verif")
-            v = [l for l in o.split("\n") if l.startswith("VIOLATION")]
-            kind = None
-            if v:
-                rp = v[0].split("replay=")[1].split()[0]
-                try:
-                    kind = json.load(open(rp)).get("kind")
-                    msg = json.load(open(rp)).get("message", "")
-                except Exception:
-                    msg = ""
-                det[pid] = dict(rc=rc, violation=v[0], kind=kind, message=str(msg)[:200], s=round(time.time() - t0, 1))
-            else:
-                det[pid] = dict(rc=rc, violation=None, s=round(time.time() - t0, 1), tail=o[-200:] if rc else "")
-            print(pid, det[pid], flush=True)
-    finally:
-        sh("git -C /repo checkout -- .")
+    for pid, txt in res["checks"].items():
+        v = txt if txt.startswith("VIOLATION") else None
+        kind = txt.split("[")[1].split("]")[0] if v and "[" in txt else None
+        det[pid] = dict(violation=(v.split(" [")[0] if v else None), kind=kind, raw=txt)
+        print(pid, txt[:220], flush=True)
     meta_out = dict(property=meta.get("property"), summary=meta.get("summary"), needs=meta.get("needs"), agent_ran=meta.get("ran"),
                     confirmed=dict(demo_passes_unmodified=True, demo_fails_patched=True, pinned_suite_passes_patched=True, suite=result["suite"],
                                    builds_no_default_features=result["nostd_builds"]),
